@@ -13,10 +13,16 @@ package vsched
 
 import (
 	"fmt"
+	"os"
 	"runtime"
 	"runtime/debug"
 	"strings"
+	"time"
 )
+
+// watchdog bounds the real time one execution may take (a stuck execution is a
+// harness error, never a verdict).
+const watchdog = 120 * time.Second
 
 // Kind classifies scheduling points.
 type Kind uint8
@@ -125,8 +131,9 @@ type sched struct {
 	stepAll      bool
 	envCostFree  bool
 
-	randCtr uint32
-	opts    []*thread
+	atomicDepth int
+	randCtr     uint32
+	opts        []*thread
 	locals  map[string]interface{}
 }
 
@@ -277,6 +284,10 @@ func Point(k Kind, where string, cond func() bool) {
 	if !sc.active || sc.killing {
 		return
 	}
+	if sc.atomicDepth > 0 && (cond == nil || cond()) {
+		// inside an atomic section the running thread keeps running while it can
+		return
+	}
 	t := sc.cur
 	t.cond, t.kind, t.where, t.parked = cond, k, where, true
 	sc.steps++
@@ -295,6 +306,21 @@ func Point(k Kind, where string, cond func() bool) {
 	}
 	t.parked = false
 	t.cond = nil
+}
+
+// Atomic runs f without scheduling points (unless the thread has to block).
+// Harnesses use it around calls into uninstrumented code that takes a real lock
+// and calls back into instrumented code (memberlist's broadcast queue calling
+// Serf.NumNodes under its mutex): a switch there could park a thread that holds
+// a real mutex another controlled thread needs.
+func Atomic(f func()) {
+	if !Active() {
+		f()
+		return
+	}
+	s.atomicDepth++
+	defer func() { s.atomicDepth-- }()
+	f()
 }
 
 // Block parks the running thread forever (nil channel operations, select{}).
@@ -506,7 +532,14 @@ func Run(o RunOpts, body func()) *Exec {
 	root := s.spawn("root", body)
 	s.cur = root
 	root.baton <- struct{}{}
-	<-s.mainCh
+	select {
+	case <-s.mainCh:
+	case <-time.After(watchdog):
+		buf := make([]byte, 1<<20)
+		buf = buf[:runtime.Stack(buf, true)]
+		fmt.Fprintf(os.Stderr, "vsched: execution made no progress for %v: a controlled thread is blocked in an uncontrolled (real) blocking call\nprefix=%v\n%s\n", watchdog, o.Prefix, buf)
+		os.Exit(2)
+	}
 	x := &Exec{
 		Choices:  s.choices,
 		Points:   s.points,
